@@ -58,6 +58,7 @@ static std::optional<Failure> check_one(Run &R, const Bytes &a, int mask) {
     if (any_acc || lvalid) R.nontrivial(hashs(a));
     R.count(any_acc ? "accepted-in-some-mode" : lvalid ? "rejected-with-valid-local" : "rejected-invalid-local");
     if (any_acc && f.bracket) R.sample(f.lit.family == 4 ? "accepted v4 literal" : "accepted v6 literal", show(a), 2);
+    for (int m = 0; m < 4; m++) for (const Outs *oo : {&od, &ox}) { std::string w = veteran_differs(*oo, m); if (!w.empty()) return Failure{"record-after-history", g_case, "address '" + show(a) + "': " + w}; }
     for (int m = 0; m < 4; m++) for (int t = 0; t < 2; t++) {
         std::string where = std::string("mode ") + ref::MODE_NAME[m] + " tld_check=" + std::to_string(t) + " address '" + show(a) + "': ";
         struct { const Core *K; const v_outcome *x; bool direct; const char *n; } v[] = {
